@@ -288,6 +288,8 @@ func init() {
 	registerGit()
 	registerMisc()
 	registerCli()
+	registerGoProject()
+	registerClocFiles()
 	describe()
 }
 
